@@ -536,7 +536,7 @@ class RelativeJSONPointer:
             index = 0
 
         # Pointer or '#'. Empty string is OK.
-        _pointer = match.group("POINTER").strip()
+        _pointer = match.group("POINTER")
         pointer = (
             JSONPointer(
                 _pointer,
